@@ -4172,7 +4172,9 @@ class C11(Check):
         "trace on every generated model, not proved; `checkedIgnorable` (Control/Rule._which, HeadPump._curve_coeffs/_coeffs_curve_points) is shown by the translator (Gen.notReadBeforeWrite: never read / "
         "write-dominates-read protocol / key-guarded memo, evidence in the generated comment lines); `_condition._backtrack` is discharged by generated facts (Gen.backtrackKinds / presolveConditionClasses / backtrackConsumers / backtrackReaders, "
         "decided in backtrack_facts, with the And/Or short-circuit model of Lemmas/FrameBacktrack.lean); Reservoir._leak_status turned out to be real state "
-        "(known finding, repair proposed); `assumedIgnorable` (WaterNetworkModel._inpfile, Rule._name: written, not reset, not shown irrelevant) is a "
+        "(known finding, repair proposed); Rule._name is discharged by rule_name_facts (the INP writer assigns a nameless rule exactly its registry key, which to_dict already reports: Gen.ruleNameAssignedIsRegistryKey, "
+        "toDictSubstitutesKeyForEmptyName); in-place mutation of containers is covered by Gen.mutatedInPlace (ast) + a deep container snapshot around every run (in_place_mutation_invisible_to_toDict); "
+        "`assumedIgnorable` (WaterNetworkModel._inpfile only: written, not reset, not shown irrelevant because inpfile_units may be None) is a "
         "hypothesis of the Lean theorems that only the rerun oracle checks. Modelled, not verified: the numerical solver (equal stores give "
         "equal results is an assumption of the frame theorem; reruns agree to ~1e-13, compared at 1e-9 relative because evaluator.cpp orders "
         "unknowns by heap address); registries / OrderedSets mutated in place (observer lists) are not slots; tables are class-level "
